@@ -61,6 +61,30 @@ Definition big_bytes (x : Z) : bytes := be_min (S (Z.to_nat (Z.log2 (x + 1)))) x
 
 Definition semantic_tags : list Z := [0; 1; 4; 5; 25; 28; 29; 30; 35; 36; 37; 100; 256; 258; 260; 261; 1004; 43000; 55799].
 
+(* strict UTF-8 (RFC 3629: no overlong forms, no surrogates, at most U+10FFFF) — cbor2 rejects any other text string *)
+Definition cont (b : Z) : bool := (128 <=? b) && (b <=? 191).
+Fixpoint utf8_valid (s : bytes) : bool :=
+  match s with
+  | [] => true
+  | b0 :: r =>
+      if b0 <? 128 then utf8_valid r
+      else if (194 <=? b0) && (b0 <=? 223) then
+        match r with b1 :: r' => cont b1 && utf8_valid r' | _ => false end
+      else if b0 =? 224 then
+        match r with b1 :: b2 :: r' => (160 <=? b1) && (b1 <=? 191) && cont b2 && utf8_valid r' | _ => false end
+      else if ((225 <=? b0) && (b0 <=? 236)) || (b0 =? 238) || (b0 =? 239) then
+        match r with b1 :: b2 :: r' => cont b1 && cont b2 && utf8_valid r' | _ => false end
+      else if b0 =? 237 then
+        match r with b1 :: b2 :: r' => (128 <=? b1) && (b1 <=? 159) && cont b2 && utf8_valid r' | _ => false end
+      else if b0 =? 240 then
+        match r with b1 :: b2 :: b3 :: r' => (144 <=? b1) && (b1 <=? 191) && cont b2 && cont b3 && utf8_valid r' | _ => false end
+      else if (241 <=? b0) && (b0 <=? 243) then
+        match r with b1 :: b2 :: b3 :: r' => cont b1 && cont b2 && cont b3 && utf8_valid r' | _ => false end
+      else if b0 =? 244 then
+        match r with b1 :: b2 :: b3 :: r' => (128 <=? b1) && (b1 <=? 143) && cont b2 && cont b3 && utf8_valid r' | _ => false end
+      else false
+  end.
+
 (* decoded item -> Python object (normal form) *)
 Fixpoint pyn (c : cbor) : res cbor :=
   match c with
@@ -80,6 +104,16 @@ Fixpoint pyn (c : cbor) : res cbor :=
       else match pyn x with Raise e => Raise e | Ok x' => Ok (CTag t x') end
   | CSimple v => Ok c     (* false / true / null; undefined and other simple values are opaque objects *)
   | _ => Ok c
+  end.
+
+(* cbor2 rejects a text string that is not strict UTF-8, wherever it occurs *)
+Fixpoint utf8_ok (c : cbor) : bool :=
+  match c with
+  | CText s => utf8_valid s
+  | CArray l => forallb utf8_ok l
+  | CMap l | CMapI l => forallb (fun kv => match kv with (k, v) => utf8_ok k && utf8_ok v end) l
+  | CTag _ x => utf8_ok x
+  | _ => true
   end.
 
 (* Python object -> item that cbor2.dumps emits (bignums get their tag back) *)
@@ -122,7 +156,7 @@ Definition validate_cbor (b : bytes) : res unit :=
 Definition dec (b : bytes) : res cbor :=
   let* _ := validate_cbor b in
   match loads b with
-  | Some c => pyn c
+  | Some c => if utf8_ok c then pyn c else Raise ValueError
   | None => Raise ValueError
   end.
 
